@@ -40,6 +40,23 @@ Theorem C19_lookup_beyond_total_fails : forall ws v, nonneg ws -> total ws < v -
 Proof. exact find_beyond_top. Qed.
 Print Assumptions C19_lookup_beyond_total_fails.
 
+(** Where the simulation makes the choice (CountriesAirportsRoutes.chooseTrip): the departure airport is drawn with
+    the total of its route weights as its weight, then the route with its own weight.  Airport a is selected by
+    exactly [total (routes of a)] of the first draws and route j of it by exactly its weight of the second draws:
+    a route is flown with probability (its weight) / (sum of all route weights of the country), exactly. *)
+Theorem C19_trip_choice_exactly_proportional : forall aws a j,
+  Forall nonneg aws -> (a < length aws)%nat -> (j < length (nth a aws []))%nat ->
+  Z.of_nat (length (filter (chosen (airport_weights aws) a) (zrange (total (airport_weights aws))))) = total (nth a aws []) /\
+  Z.of_nat (length (filter (chosen (nth a aws []) j) (zrange (total (nth a aws []))))) = nth j (nth a aws []) 0.
+Proof. exact trip_choice_count. Qed.
+Print Assumptions C19_trip_choice_exactly_proportional.
+
+Example C19_trip_choice_nonvacuous :
+  Forall nonneg [[3; 0; 4]; []; [0; 10]] /\ airport_weights [[3; 0; 4]; []; [0; 10]] = [7; 0; 10] /\
+  Z.of_nat (length (filter (chosen (airport_weights [[3; 0; 4]; []; [0; 10]]) 0) (zrange 17))) = 7 /\
+  Z.of_nat (length (filter (chosen [3; 0; 4] 2) (zrange 7))) = 4.
+Proof. split; [repeat constructor; discriminate|]. repeat split; vm_compute; reflexivity. Qed.
+
 (** Non-vacuity: a concrete vector with zero and unit weights meets the hypotheses and the
     counts come out as stated. *)
 Example C19_nonvacuous :
